@@ -77,6 +77,9 @@ pub enum Op {
     FromIter(usize, Vec<u8>, u8),
     /// Bytes: io::Write; UTF8: fmt::Write
     IoWrite(usize, Vec<u8>, bool),
+    /// ReadExt::read_to_tendril from a scripted reader (Bytes format): `data` in pieces, some
+    /// reads first fail with Interrupted, the stream ends with EOF or with a hard error
+    ReadFrom(usize, Vec<u8>, u8),
     /// dst.extend(srcs.iter()) : Extend<&Tendril>
     ExtendTendrils(usize, Vec<usize>),
     Drop(usize),
@@ -503,6 +506,14 @@ impl Model {
                 self.push(*i, data);
                 Out::Done
             },
+            Op::ReadFrom(i, data, _) => {
+                // like Read::read_to_end: everything delivered before EOF / the error is appended
+                if !self.live(*i) || f != Fmt::Bytes {
+                    return Out::Skipped;
+                }
+                self.push(*i, data);
+                Out::Done
+            },
             Op::FromIter(i, data, _) => {
                 if *i >= SLOTS || !matches!(f, Fmt::Bytes | Fmt::Utf8) || !validate(f, data) {
                     return Out::Skipped;
@@ -554,6 +565,7 @@ fn mutated_slot(op: &Op) -> Option<usize> {
         | Op::ExtendWithByte(i, _, _)
         | Op::Extend(i, _, _)
         | Op::IoWrite(i, _, _)
+        | Op::ReadFrom(i, _, _)
         | Op::ExtendTendrils(i, _)
         | Op::Reserve(i, _)
         | Op::Send(i, _) => Some(*i),
@@ -631,6 +643,9 @@ pub trait Fm: tf::Format + Sized + 'static {
         Self::from_valid(data)
     }
     fn io_write<A: At>(_t: &mut Tendril<Self, A>, _data: &[u8], _flag: bool) {}
+    fn read_from<A: At>(_t: &mut Tendril<Self, A>, _data: &[u8], _mode: u8) -> Result<(), String> {
+        Ok(())
+    }
     /// as_superset / into_superset / try_as_subset / try_into_subset where they exist
     fn subset_roundtrip<A: At>(t: Tendril<Self, A>, _model: &[u8]) -> Result<Tendril<Self, A>, String> {
         Ok(t)
@@ -679,17 +694,58 @@ impl Fm for tf::Bytes {
         t.extend_with_byte(n, b)
     }
     fn extend<A: At>(t: &mut Tendril<Self, A>, data: &[u8], kind: u8) {
-        match kind % 3 {
+        match kind % 6 {
             0 => t.extend(data.iter().copied()),
             1 => t.extend(data.iter()),
-            _ => t.extend(data.chunks(3)),
+            2 => t.extend(data.chunks(3)),
+            // iterators whose size_hint is wrong (safe code may do that; it must never turn into
+            // a memory error, and every yielded byte is appended): too small, fixed, too large
+            k => t.extend(Lying { it: data.iter().copied(), mode: k, left: data.len() }),
         }
     }
     fn from_iter<A: At>(data: &[u8], kind: u8) -> Tendril<Self, A> {
-        match kind % 3 {
+        match kind % 6 {
             0 => data.iter().copied().collect(),
             1 => data.iter().collect(),
-            _ => data.chunks(5).collect(),
+            2 => data.chunks(5).collect(),
+            k => Lying { it: data.iter().copied(), mode: k, left: data.len() }.collect(),
+        }
+    }
+    fn read_from<A: At>(t: &mut Tendril<Self, A>, data: &[u8], mode: u8) -> Result<(), String> {
+        use tendril::ReadExt;
+        struct Scripted<'a> {
+            data: &'a [u8],
+            step: usize,
+            calls: u32,
+            interrupts: bool,
+            hard_error: bool,
+        }
+        impl std::io::Read for Scripted<'_> {
+            fn read(&mut self, buf: &mut [u8]) -> std::io::Result<usize> {
+                self.calls += 1;
+                if self.interrupts && self.calls % 3 == 1 {
+                    return Err(std::io::Error::new(std::io::ErrorKind::Interrupted, "EINTR"));
+                }
+                if self.data.is_empty() {
+                    if self.hard_error {
+                        return Err(std::io::Error::new(std::io::ErrorKind::ConnectionReset, "reset"));
+                    }
+                    return Ok(0);
+                }
+                let n = self.step.min(self.data.len()).min(buf.len());
+                buf[..n].copy_from_slice(&self.data[..n]);
+                self.data = &self.data[n..];
+                Ok(n)
+            }
+        }
+        let step = [1usize, 2, 7, 31, 32, 33, 4096, usize::MAX][(mode & 7) as usize];
+        let hard_error = mode & 16 != 0;
+        let mut r = Scripted { data, step, calls: 0, interrupts: mode & 8 != 0, hard_error };
+        match r.read_to_tendril(t) {
+            Ok(n) if !hard_error && n == data.len() => Ok(()),
+            Ok(n) => Err(format!("read_to_tendril returned Ok({n}); the reader delivered {} bytes and ended with {}", data.len(), if hard_error { "an error" } else { "EOF" })),
+            Err(_) if hard_error => Ok(()),
+            Err(e) => Err(format!("read_to_tendril returned Err({e}) although the reader ended with EOF")),
         }
     }
     fn io_write<A: At>(t: &mut Tendril<Self, A>, data: &[u8], flag: bool) {
@@ -700,6 +756,27 @@ impl Fm for tf::Bytes {
             let n = t.write(data).unwrap();
             assert_eq!(n, data.len());
             t.flush().unwrap();
+        }
+    }
+}
+
+/// An iterator over bytes that misreports its length.
+struct Lying<I> {
+    it: I,
+    mode: u8,
+    left: usize,
+}
+impl<I: Iterator<Item = u8>> Iterator for Lying<I> {
+    type Item = u8;
+    fn next(&mut self) -> Option<u8> {
+        self.left = self.left.saturating_sub(1);
+        self.it.next()
+    }
+    fn size_hint(&self) -> (usize, Option<usize>) {
+        match self.mode {
+            3 => (self.left.saturating_sub(1), Some(self.left.saturating_sub(1))), // one too few, "exact"
+            4 => (4, Some(4)),                                                   // fixed
+            _ => (self.left + 7, Some(self.left + 7)),                           // too many
         }
     }
 }
@@ -1227,6 +1304,10 @@ impl<F: Fm, A: At> Real<F, A> {
                 F::io_write(self.t(*i), data, *flag);
                 Out::Done
             },
+            Op::ReadFrom(i, data, mode) => {
+                F::read_from(self.t(*i), data, *mode)?;
+                Out::Done
+            },
             Op::ExtendTendrils(d, srcs) => {
                 let mut dt = self.slots[*d].take().expect("harness: live slot");
                 dt.extend(srcs.iter().map(|s| self.slots[*s].as_ref().expect("harness: live slot")));
@@ -1436,11 +1517,13 @@ const SPECIAL: [usize; 11] = [0, 1, 7, 8, 9, 15, 16, 17, 31, 32, 33];
 const UCHARS: &[char] = &[
     'a', 'b', 'Z', '0', ' ', '\n', 'q', '\u{7f}', 'é', 'ß', '\u{80}', '\u{7ff}', '€', '\u{800}', '\u{ffff}', '\u{fffd}',
     '😁', '\u{10000}', '\u{10ffff}', 'x', '\t', 'M', '\0',
+    // the edges of every range the UTF-8 / WTF-8 decoders distinguish
+    '\u{d7ff}', '\u{e000}', '\u{e001}', '\u{fffe}', '\u{fff}', '\u{1000}', '\u{cfff}', '\u{d000}', '\u{3ffff}', '\u{40000}', '\u{fffff}', '\u{100000}',
 ];
 /// code points for WTF-8 content: scalar values and lone surrogates
 const WCPS: &[u32] = &[
     0x61, 0x62, 0xD800, 0x20, 0xDC00, 0xE9, 0xDBFF, 0x20AC, 0xDFFF, 0x1F601, 0x5A, 0xD83D, 0x7A, 0xDE01, 0x10FFFF, 0x7FF,
-    0xFFFF, 0x30,
+    0xFFFF, 0x30, 0xD7FF, 0xE000, 0xE001, 0xD840, 0xDB80, 0xDBC0, 0xDC01, 0x10000, 0x20000, 0xFFFFF, 0x100000, 0x800, 0x80,
 ];
 const BYTES_A: &[u8] = &[b'a', 0, 0x7f, 0x80, 0xff, 0xC3, 0xA9, 0xED, 0xA0, 0x80, b'Z', b' ', 0xF0, 0x9F, 0x98, 0x81];
 
@@ -1611,6 +1694,17 @@ fn live_slot(s: &mut Src, m: &Model) -> Option<usize> {
     }
 }
 
+/// largest position <= `at` that does not split a character of the format
+fn boundary_down(f: Fmt, b: &[u8], at: usize) -> usize {
+    let mut at = at.min(b.len());
+    if matches!(f, Fmt::Utf8 | Fmt::Wtf8) {
+        while at > 0 && at < b.len() && is_cont(b[at]) {
+            at -= 1;
+        }
+    }
+    at
+}
+
 fn emit(m: &mut Model, ops: &mut Vec<Op>, op: Op) {
     if m.apply(&op) != Out::Skipped {
         ops.push(op);
@@ -1620,7 +1714,7 @@ fn emit(m: &mut Model, ops: &mut Vec<Op>, op: Op) {
 pub(crate) fn gen_op(s: &mut Src, m: &mut Model, ops: &mut Vec<Op>) {
     let f = m.f;
     let w = s.weighted(&[
-        10, 12, 10, 12, 8, 8, 8, 6, 3, 3, 2, 2, 3, 4, 5, 4, 4, 3, 3, 3, 1, 2, 4, 2, 3, 2, 2, 2, 2,
+        10, 12, 10, 12, 8, 8, 8, 6, 3, 3, 2, 2, 3, 4, 5, 4, 4, 3, 3, 3, 1, 2, 4, 2, 3, 2, 2, 2, 2, 2, 4,
     ]);
     let any = s.below(SLOTS);
     let Some(live) = live_slot(s, m) else {
@@ -1774,13 +1868,13 @@ pub(crate) fn gen_op(s: &mut Src, m: &mut Model, ops: &mut Vec<Op>) {
         24 => {
             let n = gen_len(s);
             let c = gen_content(s, f, n);
-            let k = s.below(3) as u8;
+            let k = s.below(6) as u8;
             emit(m, ops, Op::Extend(live, c, k));
         },
         25 => {
             let n = gen_len(s);
             let c = gen_content(s, f, n);
-            let k = s.below(5) as u8;
+            let k = s.below(30) as u8; // taken mod 6 (bytes) / mod 5 (text)
             emit(m, ops, Op::FromIter(any, c, k));
         },
         26 => {
@@ -1801,6 +1895,38 @@ pub(crate) fn gen_op(s: &mut Src, m: &mut Model, ops: &mut Vec<Op>) {
             }
             if !srcs.is_empty() {
                 emit(m, ops, Op::ExtendTendrils(live, srcs));
+            }
+        },
+        29 => {
+            let n = gen_len(s);
+            let c = gen_content(s, f, n);
+            let mode = s.byte() & 31;
+            emit(m, ops, Op::ReadFrom(live, c, mode));
+        },
+        30 => {
+            // a short view of the tail of a (shared) buffer, then growth of that view: the view's
+            // offset is large compared with its length, and the buffer has little room behind it
+            let k = s.below(12).min(cur.len());
+            let off = boundary_down(f, &cur, cur.len() - k);
+            let len = boundary_down(f, &cur[off..], s.below(cur.len() - off + 1));
+            let dst = (live + 1 + s.below(SLOTS - 1)) % SLOTS;
+            emit(m, ops, Op::Sub { dst, src: live, off: off as u32, len: len as u32, checked: true });
+            let n = if s.bool() { 1 + s.below(9) } else { gen_len(s) };
+            match s.below(5) {
+                0 => emit(m, ops, Op::ExtendWithByte(dst, n as u32, s.byte())),
+                1 => {
+                    let c = gen_content(s, f, n);
+                    emit(m, ops, Op::ReadFrom(dst, c, s.byte() & 31));
+                },
+                2 => emit(m, ops, Op::Reserve(dst, n as u32)),
+                3 => {
+                    let c = gen_content(s, f, n);
+                    emit(m, ops, Op::Extend(dst, c, s.below(6) as u8));
+                },
+                _ => {
+                    let c = gen_content(s, f, n);
+                    emit(m, ops, Op::PushSlice(dst, c));
+                },
             }
         },
         _ => {
